@@ -2,6 +2,7 @@
 # usage: benigntest.sh [check ids...] : runs the claimed quick checks (or the given ones) against each behaviour-preserving
 # patch under seeded/benign (false-alarm probe); BENIGN="b1 c6" restricts the patches.  Do not edit /verif while it runs.
 cd "$(dirname "$0")/.." && V=$(pwd)
+[ -d /tmp/mutb ] || { git -C /repo worktree add -q --detach /tmp/mutb HEAD && cp /repo/go.sum /tmp/mutb/ 2>/dev/null; }   # scratch worktree, removed at the end
 for d in seeded/benign/*.diff; do
   [ -n "$BENIGN" ] && ! echo " $BENIGN " | grep -q " $(basename $d .diff) " && continue
   n=$(basename $d .diff)
@@ -13,3 +14,4 @@ for d in seeded/benign/*.diff; do
   for id in $(echo "$out" | grep -v 'rc=0' | grep -o 'C[0-9][0-9]'); do cp .work/runall-$id.log .work/benign-$n/$id.log; done
 done
 cd /tmp/mutb && git checkout -q -- .
+git -C /repo worktree remove --force /tmp/mutb
